@@ -23,8 +23,20 @@ DOC = __doc__
 class Chan:
     def __init__(self, name):
         self.name = name
-        self.sends = []      # dicts: g (guard), v (value), taken (z3 bool)
+        self.sends = []      # dicts: g (guard), v (value), taken (z3 bool), at (event index at which it was received; 255 = never)
         self.is_done = None  # context id if this is a ctx.Done() channel
+
+
+NEVER = 255
+
+
+def next_event(E):
+    """index of the scheduling event (a select evaluation or a plain receive) that happens now"""
+    evt = E.ghost.get("sched_evt")
+    if evt is None:
+        evt = z3.BitVecVal(0, 8)
+    E.ghost["sched_evt"] = z3.simplify(z3.If(E.guard, evt + 1, evt)) if not is_true(E.guard) else z3.simplify(evt + 1)
+    return evt
 
 
 def install(E):
@@ -45,25 +57,38 @@ def install(E):
         # run the goroutine body now
         g0 = E.guard
         E.stats["goroutines"] = E.stats.get("goroutines", 0) + 1
+        gid0 = E.ghost.get("sched_gid", 0)
+        E.ghost["sched_ngo"] = E.ghost.get("sched_ngo", 0) + 1
+        E.ghost["sched_gid"] = E.ghost["sched_ngo"]
         try:
             E.do_call(frame, ins, kind, target, args)
         finally:
             # a goroutine that panics takes the process down: obligations were recorded inside;
             # the spawner continues regardless
             E.guard = g0
+            E.ghost["sched_gid"] = gid0
         return None
     I["$go"] = go_stmt
 
     def send(E, frame, ins, ch, val):
         c = chan_of(ch)
-        c.sends.append({"g": E.guard, "v": val, "taken": FALSE})
+        c.sends.append({"g": E.guard, "v": val, "taken": FALSE, "at": z3.BitVecVal(NEVER, 8)})
         return None
     I["$send"] = send
 
     def pending(c):
         return [s for s in c.sends]
 
-    def take_any(E, c, what, pos, cond=TRUE):
+    def waited(E, cond=TRUE):
+        """the goroutine that waits here has already taken a deadline case: it waits past its deadline"""
+        gid = E.ghost.get("sched_gid", 0)
+        d = E.ghost.setdefault("sched_done_taken", {}).get(gid, FALSE)
+        if is_false(d):
+            return
+        w = E.ghost.setdefault("sched_late_waits", {})
+        w[gid] = Or(w.get(gid, FALSE), And(E.guard, cond, d))
+
+    def take_any(E, c, what, pos, cond=TRUE, evt=None):
         """receive from any pending send under extra condition cond; returns (value, possible)"""
         cands = []
         for k, s in enumerate(c.sends):
@@ -86,12 +111,15 @@ def install(E):
         g = And(E.guard, cond)
         for (k, s, avail), sel in zip(cands, chosen):
             s["taken"] = Or(s["taken"], And(g, sel))
+            if evt is not None:
+                s["at"] = z3.If(And(g, sel), evt, s["at"])
         return val, possible
 
     def recv(E, frame, ins, ch):
         c = chan_of(ch)
         pos = ins.get("pos", "")
-        val, possible = take_any(E, c, "recv", pos)
+        waited(E)
+        val, possible = take_any(E, c, "recv", pos, evt=next_event(E))
         E.oblige("deadlock", possible, oid="recv-would-block-forever@%s" % pos, pos=pos)
         if val is None:
             from .engine import DeadPath
@@ -108,15 +136,21 @@ def install(E):
         # states: (dir, chan, sendval); dir 2 = recv (types.RecvOnly), 1 = send
         ready = []
         vals = []
+        waited(E)
+        evt = next_event(E)
+        fires = []
         for i, (d, ch, sv) in enumerate(states):
             c = chan_of(ch)
             if c.is_done is not None:
                 cx = ctxs[c.is_done]
                 # the context may fire now (monotone)
                 fire = E.new_input("sched.fire", "bool", z3.BoolSort())
+                first = And(E.guard, fire, Not(cx["fired"]))
+                cx["fired_at"] = z3.If(first, evt, cx["fired_at"])
                 cx["fired"] = Or(cx["fired"], And(E.guard, fire))
                 ready.append(cx["fired"])
                 vals.append(None)
+                fires.append((i, fire))
             else:
                 avail = Or(*[And(s["g"], Not(s["taken"])) for s in c.sends]) if c.sends else FALSE
                 ready.append(avail)
@@ -126,6 +160,12 @@ def install(E):
         # something is ready (a select with nothing ready waits; not an event)
         E.assume(anyready, "scheduler: select evaluated when at least one case is ready")
         E.assume(Or(*[And(choice == i, r) for i, r in enumerate(ready)]), "scheduler: select takes a ready case")
+        # replayability: a deadline that fires at a select is the case that select takes
+        for i, fire in fires:
+            E.ghost.setdefault("sched_prefs", []).append(z3.Implies(And(E.guard, fire), choice == i))
+            gid = E.ghost.get("sched_gid", 0)
+            dt = E.ghost.setdefault("sched_done_taken", {})
+            dt[gid] = Or(dt.get(gid, FALSE), And(E.guard, choice == i))
         tt = E.prog.type(ins["type"]).d["elems"]
         out = [z3.ZeroExt(56, choice), TRUE]
         k = 2
@@ -136,7 +176,7 @@ def install(E):
             if c is None:
                 out.append(E.zero(E.prog.type(tt[k])))
             else:
-                v, possible = take_any(E, c, "select", pos, cond=(choice == i))
+                v, possible = take_any(E, c, "select", pos, cond=(choice == i), evt=evt)
                 out.append(v if v is not None else E.zero(E.prog.type(tt[k])))
             k += 1
         return tuple(out)
@@ -145,7 +185,8 @@ def install(E):
     # ---------------------------------------------------------------- contexts
     def new_ctx(parent=None):
         cid = len(ctxs)
-        ctxs[cid] = {"fired": FALSE if parent is None else ctxs[parent]["fired"], "parent": parent, "chan": None}
+        ctxs[cid] = {"fired": FALSE if parent is None else ctxs[parent]["fired"], "parent": parent, "chan": None,
+                     "fired_at": z3.BitVecVal(NEVER, 8) if parent is None else ctxs[parent]["fired_at"]}
         return cid
 
     def ctx_val(cid):
@@ -205,5 +246,32 @@ def install(E):
         return ctxs[cid_of(args[0])]["fired"]
     I[ZV + "CtxFired"] = ctx_fired
 
+    def late_waits(E, name, args, ins):
+        """number of goroutines that waited (select / receive) after having taken a deadline case"""
+        n = bv(0)
+        for gid, w in E.ghost.get("sched_late_waits", {}).items():
+            n = n + zif(w, bv(1), bv(0))
+        return z3.simplify(n)
+    I[ZV + "WaitsAfterDeadline"] = late_waits
+
     from . import stubs
     stubs.doc("go / channels / select / context (scheduler model)", DOC)
+
+
+def native_feasible(E):
+    """replayability side conditions + derived schedule inputs for the native (testing/synctest) replay:
+    sched.at.<k> = index of the scheduling event at which the k-th send was received (255: never),
+    sched.fired_at = index of the select at which the (first) context fired (255: never)"""
+    cs = list(E.ghost.get("sched_prefs", []))
+    k = 0
+    for oid, c in sorted(E.ghost.get("chans", {}).items()):
+        if c.is_done is not None:
+            continue
+        for s in c.sends:
+            t = E.new_input("sched.at.%d" % k, "int", z3.BitVecSort(8))
+            cs.append(t == s["at"])
+            k += 1
+    for cid, cx in sorted(E.ghost.get("ctxs", {}).items()):
+        t = E.new_input("sched.fired_at.%d" % cid, "int", z3.BitVecSort(8))
+        cs.append(t == cx["fired_at"])
+    return cs
